@@ -538,7 +538,9 @@ func vInfixShape(op pAst.InfixOperator) int {
     ghostat @floor-restored before-each self.insert(newOneStringInstruction(Opcode_Label, after_label) :: floor = old(ghost(floor))
     assert @no-pending-operands-at-loop-exit before-each self.leaveTryBlocks(self.currLoop().tryDepth, node.Span()) :: ghost(depth) == ghost(floor)
     assert @no-pending-operands-at-return before self.leaveTryBlocks(0, node.Span()) :: ghost(depth) == b2i(node.ReturnValue != nil && node.ReturnValue.Type().Kind() != ast.NullTypeKind)
-    assumes @loop-bodies-leave-nothing (node.Kind() == ast.LoopStatementKind ==> vBlockLeaves(node.(ast.AnalyzedLoopStatement).Body) == 0) && (node.Kind() == ast.WhileStatementKind ==> vBlockLeaves(node.(ast.AnalyzedWhileStatement).Body) == 0) && (node.Kind() == ast.ForStatementKind ==> vBlockLeaves(node.(ast.AnalyzedForStatement).Body) == 0)
+    assumes @loop-bodies-are-of-type-null-or-never (node.Kind() == ast.LoopStatementKind ==> node.(ast.AnalyzedLoopStatement).Body.ResultType.Kind() == ast.NullTypeKind || node.(ast.AnalyzedLoopStatement).Body.ResultType.Kind() == ast.NeverTypeKind) && (node.Kind() == ast.WhileStatementKind ==> node.(ast.AnalyzedWhileStatement).Body.ResultType.Kind() == ast.NullTypeKind || node.(ast.AnalyzedWhileStatement).Body.ResultType.Kind() == ast.NeverTypeKind) && (node.Kind() == ast.ForStatementKind ==> node.(ast.AnalyzedForStatement).Body.ResultType.Kind() == ast.NullTypeKind || node.(ast.AnalyzedForStatement).Body.ResultType.Kind() == ast.NeverTypeKind)
+    assert @back-edge-at-the-depth-of-the-head before-each self.insert(newOneStringInstruction(Opcode_Jump, head_label) :: node.Body.ResultType.Kind() == ast.NeverTypeKind || ghost(depth) == old(ghost(depth))
+    ghostat @loop-exit before-each self.insert(newOneStringInstruction(Opcode_Label, after_label) :: depth = old(ghost(depth))
     ghostat @trigger-registration before self.insert(newOneStringInstruction(Opcode_HostCall, RegisterTriggerHostFn), node.Span()) :: depth = ghost(depth) - 3 - len(node.TriggerArguments.List) + 1
     assert @return-leaves-only-the-result before self.leaveTryBlocks(0, node.Span()) :: ghost(depth) == old(ghost(depth)) + b2i(node.ReturnValue != nil && node.ReturnValue.Type().Kind() != ast.NullTypeKind)
     ghostat @code-behind-return-is-dead after self.insert(newOneStringInstruction(Opcode_Jump, self.CurrFn().CleanupLabel), node.Span()) :: depth = old(ghost(depth))
